@@ -674,6 +674,14 @@ class Explorer:
                 self.solver.set("timeout", self.timeout_ms)
         else:
             r = self.solver.check(*extra)
+            if str(r) == "unknown":
+                # z3's budget is wall-clock time: on a loaded machine a query can run out of it without having run.  One retry with
+                # six times the budget; a second `unknown` is reported as inconclusive by the caller.
+                self.solver.set("timeout", 6 * self.timeout_ms)
+                try:
+                    r = self.solver.check(*extra)
+                finally:
+                    self.solver.set("timeout", self.timeout_ms)
         self.stats.solver_s += time.time() - t
         r = str(r)
         if r == "sat" and not extra:
